@@ -91,8 +91,8 @@ def _gen_of(r):
         x = r.random()
         if x < 0.45:
             m = r.choice(['append', 'append', 'extend', 'setitem', 'setitem', 'setslice', 'sort', 'reverse',
-                          'clear', 'reset', 'clone', 'read_at_len', 'nested_mut', 'nested_mut'])
-            if m == 'nested_mut' and elem['k'] not in ('SEQ', 'SEQOF'):
+                          'clear', 'reset', 'clone', 'read_at_len', 'nested_mut', 'nested_mut', 'nested_clear'])
+            if m in ('nested_mut', 'nested_clear') and elem['k'] not in ('SEQ', 'SEQOF'):
                 m = 'append'
             if m == 'append':
                 ops.append(['append', _elem_value(r, elem), r.choice([False, False, False, True, True, 'narrow'])])
@@ -128,6 +128,12 @@ def _gen_of(r):
                 ops.append(['sort', r.random() < 0.4, r.choice(['full', 'coarse', 'coarse', 'const'])])
             elif m == 'nested_mut':
                 ops.append(['nested_mut', r.randrange(8), r.choice([0, 1, -1, 70000])])
+            elif m == 'nested_clear':
+                # a member obtained by a plain read is emptied (clear) or turned back into a schema (reset); the
+                # status of the collection is often looked at just before, so that anything remembered is stale
+                if r.random() < 0.6:
+                    ops.append([r.choice(['isValue', 'encode', 'prettyPrint'])])
+                ops.append(['nested_clear', r.randrange(8), r.choice(['clear', 'reset'])])
             elif m == 'clone':
                 ops.append(['clone', r.random() < 0.7])
             elif m in ('clear', 'reset'):
@@ -216,7 +222,16 @@ def _gen_rec(r):
         i = names.index(f['n'])
         if x < 0.45:
             m = r.choice(['set_name', 'set_name', 'set_pos', 'set_type', 'clear', 'reset', 'clone', 'get_name_inst', 'get_pos_inst',
-                          'nested_mut'])
+                          'nested_mut', 'nested_mut', 'nested_clear'])
+            if m == 'nested_clear':
+                cand = [g for g in fields if g['n'] in ('d', 'f')]
+                if not cand:
+                    m = 'set_name'
+                else:
+                    if r.random() < 0.6:
+                        ops.append([r.choice(['isValue', 'encode', 'prettyPrint'])])
+                    ops.append(['nested_clear', r.choice(cand)['n'], r.choice(['clear', 'reset'])])
+                    continue
             if m == 'nested_mut':
                 cand = [g for g in fields if g['n'] in ('d', 'f')]
                 if not cand:
@@ -447,8 +462,8 @@ class OfRun(object):
                 if c is None or c is U.p.base.noValue:
                     items.append('HOLE')
                 else:
-                    a = U.absval(c)
-                    items.append('HOLE' if (len(a) == 3 and a[2] == 'NOVALUE') else a)
+                    a = _norm_member(U.absval(c))
+                    items.append('HOLE' if a is None else a)
         try:
             isv = bool(o.isValue)
         except Exception as e:
@@ -492,7 +507,7 @@ class OfRun(object):
         n = len(mlist)
         # ---- mutators
         if k in ('append', 'extend', 'setitem', 'setslice', 'setslice_resize', 'sort', 'reverse', 'clear', 'reset', 'clone',
-                 'read_at_len', 'nested_mut'):
+                 'read_at_len', 'nested_mut', 'nested_clear'):
             try:
                 if k == 'append':
                     o.append(self.elem_arg(op[1], op[2]))
@@ -574,15 +589,29 @@ class OfRun(object):
                     if not n or self.elem['k'] not in ('SEQ', 'SEQOF'):
                         return 'skip'
                     i = op[1] % n
-                    if mlist[i] == HOLE:
-                        return 'skip'
                     nm = copy.deepcopy(mlist)
+                    # (a placeholder member is filled the same way: the read hands out the stored placeholder)
                     if self.elem['k'] == 'SEQOF':
                         o[i].append(op[2])
-                        nm[i] = list(nm[i]) + [op[2]]
+                        nm[i] = (list(nm[i]) if nm[i] != HOLE else []) + [op[2]]
                     else:
                         o[i]['a'] = op[2]
-                        nm[i] = dict(nm[i], a=op[2])
+                        nm[i] = dict(nm[i] if nm[i] != HOLE else {}, a=op[2])
+                    self.m = nm
+                elif k == 'nested_clear':
+                    # a constructed member obtained by a plain read is emptied or reset in place
+                    if not n or self.elem['k'] not in ('SEQ', 'SEQOF'):
+                        return 'skip'
+                    i = op[1] % n
+                    nm = copy.deepcopy(mlist)
+                    if op[2] == 'reset':
+                        o[i].reset()
+                        nm[i] = HOLE
+                    else:
+                        o[i].clear()
+                        # an emptied SEQUENCE OF is the empty list, a value; a record whose mandatory field is gone is
+                        # a placeholder again
+                        nm[i] = [] if self.elem['k'] == 'SEQOF' else HOLE
                     self.m = nm
             except Exception as e:
                 extra = {}
@@ -846,16 +875,26 @@ class RecRun(object):
         before_abs = self.observe_abs(o)
         before_rel = self.observe_rel(o)
         md = dict(m) if m is not None else {}
-        if k in ('set_name', 'set_pos', 'set_type', 'clear', 'reset', 'clone', 'get_name_inst', 'get_pos_inst', 'nested_mut'):
+        if k in ('set_name', 'set_pos', 'set_type', 'clear', 'reset', 'clone', 'get_name_inst', 'get_pos_inst', 'nested_mut',
+                 'nested_clear'):
             try:
-                if k == 'nested_mut':
+                if k == 'nested_clear':
+                    if op[1] not in self.names:
+                        return 'skip'
+                    # o[name] instantiates the member if need be (documented), then it is emptied or reset in place
+                    if op[2] == 'reset':
+                        o[op[1]].reset()
+                        md[op[1]] = HOLE
+                    else:
+                        o[op[1]].clear()
+                        md[op[1]] = [] if op[1] == 'd' else {}
+                    self.m = md
+                elif k == 'nested_mut':
                     if op[1] not in self.names:
                         return 'skip'
                     if op[1] == 'd':
-                        if md.get('d') in (None, HOLE):
-                            return 'skip'
                         o['d'].append(op[2])
-                        md['d'] = list(md['d']) + [op[2]]
+                        md['d'] = (list(md['d']) if md.get('d') not in (None, HOLE) else []) + [op[2]]
                     else:
                         # the documented lazy way: o['f'] instantiates the member if need be, then one of its two
                         # mandatory fields is assigned (the member may stay half filled for a while)
